@@ -268,6 +268,31 @@ func GetProp(ctx *Context, s State, id string, prop string, def interface{}) (in
 	return getProp(ctx, s, id, prop, def)
 }
 
+// dependsOn reports whether the given fact's 'deleteWith' property
+// names the given id.
+//
+// Dependents are found with a search for a pattern that contains the
+// id.  The matcher takes an id that looks like a variable ("?x") for a
+// variable, and then the search finds every fact that has a
+// 'deleteWith' property.
+func dependsOn(fact map[string]interface{}, id string) bool {
+	switch vv := fact[KW_DeleteWith].(type) {
+	case []interface{}:
+		for _, v := range vv {
+			if s, ok := v.(string); ok && s == id {
+				return true
+			}
+		}
+	case []string:
+		for _, s := range vv {
+			if s == id {
+				return true
+			}
+		}
+	}
+	return false
+}
+
 // SetProp is the high-level property setter.
 //
 // The given id is the target id.
